@@ -94,9 +94,26 @@ def to_meta(g):
     return out
 
 
+def deep_chain(rng, ctx):
+    """a long single-inheritance chain K0 : K1 : ... : K(n-1) (33..90 levels -- deeper than any walk bound one might hard-code), members only near
+    the top, optionally one fork or a cycle at the top"""
+    n = rng.choice([34, 35, 40, 48, 64, 65, 90])
+    ctx.dist("graph-deep-chain")
+    classes = []
+    for i in range(n):
+        sup = [("K%d" % (i + 1), True)] if i + 1 < n else ([("K%d" % rng.randrange(n), True)] if rng.random() < 0.2 else [])
+        top = i >= n - 2
+        classes.append({"supers": sup, "props": [p for p in range(NP) if top and rng.random() < 0.6],
+                        "meths": {"signals": [], "slots": [], "methods": [(m, True, 0) for m in range(NM) if top and rng.random() < 0.4]},
+                        "enums": [(0, False, [1])] if top else []})
+    return {"classes": classes, "others": [], "aliases": []}
+
+
 def queries(g, rng):
     n = len(g["classes"])
     names = ["K%d" % i for i in range(n)] + [a for a, _ in g["aliases"]]
+    if n > 12:
+        names = sorted(set(["K0", "K1", "K%d" % (n - 1), "K%d" % (n - 2), "K%d" % (n - 33), "K%d" % (n - 34), "K%d" % (n // 2)] + rng.sample(names, 3)), key=num)
     qs = []
     for a in names:
         for b in names:
@@ -293,7 +310,7 @@ def run(ctx):
     if ctx.replay:
         graphs = [ctx.replay["case"]["graph"]]
     else:
-        graphs = corpus + [gen_graph(rng, ctx) for _ in range(ngraphs)]
+        graphs = corpus + [deep_chain(rng, ctx) for _ in range(40 if ctx.tier == "thorough" else 4)] + [gen_graph(rng, ctx) for _ in range(ngraphs)]
     cases = []
     for g in graphs:
         qs = queries(g, rng)
@@ -332,7 +349,7 @@ def run(ctx):
     ctx.coverage["answers_in_known_class"] = known_n
     if graphs:
         ctx.sample({"graph": graphs[min(2, len(graphs) - 1)], "queries": cases[min(2, len(graphs) - 1)]["queries"][:6], "impl": impl[min(2, len(graphs) - 1)][:6] if isinstance(impl[min(2, len(graphs) - 1)], list) else impl[min(2, len(graphs) - 1)]})
-    ctx.coverage["rule"] = ("random class graphs (1..8 classes; styles dag/any/dangling/chain; private bases, aliases, non-class names) with all derives pairs and "
+    ctx.coverage["rule"] = ("random class graphs (1..8 classes; styles dag/any/dangling/chain, plus single-inheritance chains 34..90 levels deep; private bases, aliases, non-class names) with all derives pairs and "
                             "property/method/enum/variant lookups per class; non-trivial = at least one super-class reference; distinct by graph")
     kc = ctx.known_classes()
     if known_n:
